@@ -45,12 +45,13 @@ Fixpoint bwalk (dem : bool) (n : node) (st : bst) {struct n} : bst * list site :
     if is_store c then (bind id st, []) else (st, mk_site id p st (dem && is_load c))
   | EAttr v _ c _ | EStar v c _ =>
     let here := if is_store c then [] else mk_site (spell_base n) (pos_of n) st (dem && is_load c) in
-    let '(s1, a) := if is_nameable v then binner v st else bwalk dem v st in
+    let '(s1, a) := if is_nameable v then binner dem v st else bwalk dem v st in
     (match n with EStar _ Store _ => s1 | _ => st end, here ++ a)
   | ESub v sl c _ =>
     let here := if is_store c then [] else mk_site (spell_base n) (pos_of n) st (dem && is_load c) in
-    let '(_, a) := if is_nameable v then binner v st else bwalk dem v st in
-    let '(_, b) := bwalk false sl st in
+    let '(_, a) := if is_nameable v then binner dem v st else bwalk dem v st in
+    (* the index / slice of a subscript is visited (repair of KF_C01_1): its reads are demanded like the rest *)
+    let '(_, b) := bwalk dem sl st in
     (st, here ++ a ++ b)
   | ECall f args kws p =>
     if is_attr_call n then
@@ -59,7 +60,7 @@ Fixpoint bwalk (dem : bool) (n : node) (st : bst) {struct n} : bst * list site :
       let here := mk_site (spell_base n) p st dem in
       let '(s1, a) := walks dem args st in
       let '(s2, b) := walks dem kws s1 in
-      let '(_, c) := if is_nameable f then binner f st else bwalk false f st in
+      let '(_, c) := if is_nameable f then binner dem f st else bwalk false f st in
       (s2, here ++ a ++ b ++ c)
   | EKw _ v => bwalk dem v st
   | EConst _ | ENoKey | SForbidden _ _ => (st, [])
@@ -123,23 +124,23 @@ Fixpoint bwalk (dem : bool) (n : node) (st : bst) {struct n} : bst * list site :
     let '(s1, x) := walks dem cs (binds bs st) in
     if String.eqb k "ExceptHandler" then (fold_left (fun s b => unbind b s) bs s1, x) else (s1, x)
   end
-(* inside a spine, below its outermost node: slices and arguments are read, in positions the
-   analyser is known not to look at (not demanded) *)
-with binner (v : node) (st : bst) {struct v} : bst * list site :=
+(* inside a spine, below its outermost node: the arguments of inner calls are read in positions the analyser is
+   known not to look at (not demanded); the indexes / slices are visited (demanded as the context demands) *)
+with binner (dem : bool) (v : node) (st : bst) {struct v} : bst * list site :=
   let walks := fix walks (l : list node) (s : bst) : bst * list site :=
                  match l with
                  | [] => (s, [])
                  | x :: r => let '(s1, a) := bwalk false x s in let '(s2, b) := walks r s1 in (s2, a ++ b)
                  end in
   match v with
-  | EAttr v' _ _ _ | EStar v' _ _ => if is_nameable v' then binner v' st else bwalk false v' st
+  | EAttr v' _ _ _ | EStar v' _ _ => if is_nameable v' then binner dem v' st else bwalk false v' st
   | ESub v' sl _ _ =>
-    let '(_, a) := if is_nameable v' then binner v' st else bwalk false v' st in
-    let '(_, b) := bwalk false sl st in (st, a ++ b)
+    let '(_, a) := if is_nameable v' then binner dem v' st else bwalk false v' st in
+    let '(_, b) := bwalk dem sl st in (st, a ++ b)
   | ECall f args kws _ =>
     let '(s1, a) := walks args st in
     let '(s2, b) := walks kws s1 in
-    let '(_, c) := if is_nameable f then binner f st else bwalk false f st in
+    let '(_, c) := if is_nameable f then binner dem f st else bwalk false f st in
     (s2, a ++ b ++ c)
   | _ => (st, [])
   end.
